@@ -36,5 +36,7 @@ def run(ctx):
     check_effect_tables(ctx, "C04")
     from ..rules_common import check_presence_tests, ARG_SCOPE
     check_presence_tests(ctx, "C04.PRESENCE", classes=ARG_SCOPE.get("C04", []))
+    from ..rules_common import check_param_rebinding
+    check_param_rebinding(ctx, "C04.PARAMS", classes=ARG_SCOPE.get("C04", []))
 
 
